@@ -11,6 +11,7 @@
 -/
 import ZapModel.Script
 import ZapModel.Spec
+import ZapModel.Life
 import ZapModel.EncCheck
 import Std.Data.HashMap
 
@@ -40,6 +41,7 @@ structure St where
   fileBatch : Std.HashMap String Batch := {}
   specChecked : Nat := 0
   specDiffs : List String := []
+  refs : Std.HashMap String RefSt := {}
 
 def St.seg? (st : St) (n : String) : Option Seg := (st.segs.get? n).map (·.1)
 
@@ -263,6 +265,7 @@ def commandObs (st : St) (c : Cmd) : St × Verdict :=
     match st.files.get? (c.arg 1) with
     | none => (st, .exact "scripterror:nofile")
     | some s => ({ st with segs := st.segs.insert (c.arg 0) (s, st.nextTag), nextTag := st.nextTag + 1,
+                           refs := st.refs.insert (c.arg 0) {},
                            segBatch := (match st.fileBatch.get? (c.arg 1) with | some b => st.segBatch.insert (c.arg 0) b | none => st.segBatch.erase (c.arg 0)),
                            d3 := if st.d3.contains (c.arg 1) then st.d3.insert (c.arg 0) true else st.d3 }, .exact "ok")
   | "close" => (st, .exact "ok")
@@ -275,7 +278,7 @@ def commandObs (st : St) (c : Cmd) : St × Verdict :=
     let (m, maps) := mergeSegs st.vectors mode segs drops
     let okStr := s!"ok maps={if m.numDocs = 0 then "nil" else mapsStr maps} szeq=1"
     let st' := { st with files := st.files.insert (c.arg 0) m, fileBatch := st.fileBatch.erase (c.arg 0),
-                         d3 := if m.numDocs = 0 ∧ m.fields.length ≥ 2 then st.d3.insert (c.arg 0) true else st.d3 }
+                         d3 := if m.numDocs = 0 ∧ (mergedFieldNames segs).length ≥ 2 then st.d3.insert (c.arg 0) true else st.d3 }
     let cl := c.getD "close" "never"
     if cl == "before" then (st, .pred (fun g => g.startsWith "err:closed file=0") "err:closed file=0")
     else if cl.startsWith "report:" then
@@ -290,6 +293,25 @@ def commandObs (st : St) (c : Cmd) : St × Verdict :=
       | .inl s => .exact s
       | .inr (p, d) => .pred p d)
   | "poolprobe" => (st, .exact "doubled=0")
+  | "ref" =>
+    let name := c.arg 1
+    match st.refs.get? name with
+    | none =>  -- in-memory segment: AddRef / DecRef / Close are harmless no-ops
+      (st, match c.arg 0 with
+        | "refs" => .exact "refs=na"
+        | "mapped" => .none
+        | _ => .exact "ok")
+    | some r =>
+      match c.arg 0 with
+      | "addref" => ({ st with refs := st.refs.insert name (r.step .addRef) }, .exact "ok")
+      | "decref" => ({ st with refs := st.refs.insert name (r.step .decRef) }, .exact "ok")
+      | "close" => ({ st with refs := st.refs.insert name (r.step .close) }, .exact "ok")
+      | "refs" => (st, .exact s!"refs={r.refs}")
+      | "mapped" =>
+        if r.releases = 0 then
+          (st, .pred (fun g => (kvOf g "fds") == some "1" ∧ ((kvOf g "maps").bind String.toNat?).getD 0 ≥ 1) "mapping and descriptor still held (maps>=1 fds=1)")
+        else (st, .exact "maps=0 fds=0")
+      | _ => (st, .none)
   | _ => (st, .none)
 
 /-- For segments that are zero-survivor merges (known finding D3) only the
@@ -299,9 +321,7 @@ def d3Relaxed (st : St) (c : Cmd) (got : String) : Option Bool :=
   if c.op == "q" ∧ st.d3.contains (c.arg 1) then
     some (match c.arg 0 with
       | "count" => got == "0"
-      | "fields" => got == "-" || (match st.seg? (c.arg 1) with
-          | some s => got == strList (s.fields.map (fun f => nameStr f.name))
-          | none => false)
+      | "fields" => got == "-" || got.startsWith "_id,"
       | "dvfields" => got == "-"
       | "post" => got.startsWith "cnt=0 rep=none live=- " ∧ !(((got.splitOn "hits=").getD 1 "").toList.any Char.isDigit)
       | "dict" => got.startsWith "ents=- " ∧ !(((kvOf got "contains").getD "").toList.contains '1') ∧ kvOf got "card" == some "0"
